@@ -36,6 +36,7 @@ import gc
 import itertools
 import json
 import multiprocessing as mp
+import os
 import random
 import re
 import time
@@ -47,7 +48,16 @@ from .lrusched import (Abort, FixedChooser, RandomChooser, Sched, SchedError, Sc
 
 NONE, KEYERROR = "<none>", "<KeyError>"
 KEYS = ["a", "b", "c", "d"]
-NPROC = 16
+J = int(os.environ.get("VERIF_JOBS") or 0) or os.cpu_count() or 4     # size of every pool
+NPROC = J
+# at most this many JVMs of this check at a time (all of them on a free machine, one when asked to be small)
+JVM_SLOTS = J if J >= 8 else max(1, J // 4)
+_jvm_gate = None
+
+
+def _init_worker(gate):
+    global _jvm_gate
+    _jvm_gate = gate
 
 
 def _ruc():
@@ -56,14 +66,25 @@ def _ruc():
 
 
 def run_tlc(*a, **kw):
-    """tlc.run with one retry: on a machine shared with other jobs a JVM is occasionally killed."""
+    """tlc.run behind the JVM gate, with one retry: on a machine shared with other jobs a JVM is
+    occasionally killed."""
+    if isinstance(kw.get("workers"), int):
+        kw["workers"] = max(1, min(kw["workers"], J))
+    kw.setdefault("heap", "3g")
+    gate = _jvm_gate
+    if gate is not None:
+        gate.acquire()
     try:
-        return tlc.run(*a, **kw)
-    except tlc.MachineryError as ex:
-        if "no summary" not in str(ex) and "timed out" not in str(ex):
-            raise
-        time.sleep(1.0)
-        return tlc.run(*a, **kw)
+        try:
+            return tlc.run(*a, **kw)
+        except tlc.MachineryError as ex:
+            if "no summary" not in str(ex) and "timed out" not in str(ex):
+                raise
+            time.sleep(1.0)
+            return tlc.run(*a, **kw)
+    finally:
+        if gate is not None:
+            gate.release()
 
 
 def validate(module, cfg, traces, timeout=3600):
@@ -1108,7 +1129,7 @@ def _chunks(xs, n):
 
 def _stage1_conc(args):
     name, cfg, need = args
-    r = run_tlc("MC_LRUConc", cfg, workers=6, heap="4g", coverage=True, timeout=7200)
+    r = run_tlc("MC_LRUConc", cfg, workers=6, heap="3g", coverage=True, timeout=7200)
     return {"name": name, "violated": r.violated, "distinct": r.distinct, "generated": r.generated,
             "depth": r.depth, "wall": r.wall, "coverage": {k: v[1] for k, v in r.coverage.items()}, "need": need}
 
@@ -1119,27 +1140,202 @@ def _stage1_lru(_):
             "generated": r.generated, "depth": r.depth, "wall": r.wall}
 
 
-def run(rep):
-    from concurrent.futures import ThreadPoolExecutor
-    quick = rep.tier == "quick"
-    seed = rep.seed
-    rng = random.Random(seed * 7919 + 17)
-    rep.rule = ("a case is one execution of real code judged against the specification: a replayed LRU transition, "
-                "a recorded operation sequence, one schedule of a multi-threaded program, one PoolManager scenario. "
-                "Non-trivial = the transition changes the container or disposes a value / the sequence evicts before "
-                "its epilogue / the schedule contains at least one preemption / a pool leaves the manager's cache "
-                "while a response on it is in flight or a handle to it is held")
-    rep.assumptions = ["keys, values and URLs restricted to the stated alphabets; pools use the default maxsize=1, block=False",
-                       "yield points of the scheduler: lock acquire/release, dispose calls, operation starts, and (part of "
-                       "the runs) every source line of RecentlyUsedContainer / PoolManager.connection_from_*; bytecode-level "
-                       "races inside one line are not explored",
-                       "'socket closed' is EOF seen by the in-memory peer after gc.collect(); CPython reference counting",
-                       "TLC 1.8, CPython 3.12 threading / sys.monitoring, vh/net.py and vh/lrusched.py are trusted"]
-    t_start = time.time()
-    s1 = ThreadPoolExecutor(6)
-    futs = []
-    # ---------------- stage 1 (runs in the background while the Python side works)
-    futs.append(("lru", s1.submit(_stage1_lru, None)))
+def _short(ev, n):
+    return [{k: v for k, v in e.items() if v not in (NONE, 0, [], False) or k == "t"} for e in ev[:n]]
+
+
+class _PartA:
+    """sequential container: emission + replay, recorded sequences validated by LRU_Trace"""
+
+    def submit(self, pool, rep, quick, rng):
+        self.emit = pool.apply_async(seq_emit_and_replay)
+        L = 3 if quick else 4
+        total = len(SEQ_OPS) ** L
+        jobs = []
+        nsh = 3 if quick else 24
+        for m in (0, 1, 2, 3):
+            for i in range(nsh):
+                jobs.append(("all", m, total * i // nsh, total * (i + 1) // nsh, L, 0))
+        nr, per = (4, 400) if quick else (16, 3000)
+        for i in range(nr):
+            jobs.append(("rand", 0, 0, per, 8 if i % 2 == 0 else 30, rep.seed * 1000 + i))
+        self.tr = pool.map_async(_seq_shard, jobs)
+        rep.extra["seq_exhaustive_length"] = L
+
+    def collect(self, pool, rep, quick, rng):
+        ae = self.emit.get()
+        if ae["n"] != ae["generated"] - 4 or ae["n"] == 0:
+            raise tlc.MachineryError(f"LRU emission incomplete: {ae['n']} transitions parsed, TLC generated {ae['generated']}")
+        if set(ae["kinds"]) != {"get", "getd", "set", "del", "clear", "len", "keys"}:
+            raise tlc.MachineryError(f"LRU emission misses an operation kind: {ae['kinds']}")
+        rep.evaluations += ae["n"]
+        rep.nontrivial.update(("tr", i) for i in range(ae["nontriv"]))
+        for sm in ae["samples"][:1]:
+            rep.sample({"lru_transition": sm})
+        for clause, detail, t in ae["bad"]:
+            rep.violation(clause, "replayed LRU transition: " + detail, {"kind": "transition", "transition": t})
+        rep.extra["lru_transitions_emitted"] = ae["generated"] - 4
+        rep.extra["lru_transitions_replayed"] = ae["n"]
+        outs = self.tr.get()
+        rep.extra["seq_traces"] = sum(o["n"] for o in outs)
+        rep.extra["seq_trace_events"] = sum(o["events"] for o in outs)
+        for j, o in enumerate(outs):
+            rep.traces += o["n"]
+            rep.evaluations += o["events"]
+            rep.nontrivial.update(("seq", j, i) for i in range(o["evicting"]))
+            for clause, pos, case in o["bad"]:
+                rep.violation(clause, f"operation sequence rejected by LRU_Trace at event {pos}: clause {clause}", case)
+            for d in o["drift"]:
+                rep.drift.append(f"LRU_Trace {d}")
+        if outs and outs[0]["sample"]:
+            rep.sample({"seq_trace": {"m": outs[0]["sample"]["m"], "ev": outs[0]["sample"]["ev"][:3]}})
+        return {"lru_traces": sum(o["t"] for o in outs)}
+
+
+class _PartB:
+    """concurrent container: outcome sets from TLC, real threads under the scheduler, LRUConc_Trace"""
+
+    def submit(self, pool, rep, quick, rng):
+        emit_cfgs = [dict(threads="T2", n=2, alpha="MCAlphabetQ", inits="MCInitQ", ms="MCMaxSizesQ", hasd="TRUE"),
+                     dict(threads="T3", n=1, alpha="MCAlphabetSmall" if quick else "MCAlphabet", inits="MCInitConts",
+                          ms="MCMaxSizes", hasd="TRUE")]
+        if not quick:
+            emit_cfgs.append(dict(threads="T2", n=2, alpha="MCAlphabetSmall", inits="MCInitConts", ms="MCMaxSizes", hasd="TRUE"))
+        self.emit = pool.map_async(_conc_emit, [CONC_MC_CFG.format(spec="Spec", big="TRUE", props="", emit="ACTION_CONSTRAINT Emit", **kw)
+                                                for kw in emit_cfgs])
+
+    def submit2(self, pool, rep, quick, rng):
+        self.bem = self.emit.get()
+        progs = {}
+        for o in self.bem:
+            progs.update(o["progs"])
+        if not progs:
+            raise tlc.MachineryError("LRUConc emitted no program")
+        rep.extra["conc_programs_emitted"] = len(progs)
+        rep.extra["conc_outcomes_emitted"] = sum(len(v) for v in progs.values())
+        keys = sorted(progs)
+        sel = rng.sample(keys, min(160 if quick else 2400, len(keys)))
+        jobs = [([(k, progs[k]) for k in ch], 2, 120 if quick else 1500, 2 if quick else 10, rep.seed, False)
+                for ch in _chunks(sel, NPROC * (1 if quick else 3))]
+        rnd = random_container_programs(rng, 32 if quick else 480)
+        jobs += [([(k, None) for k in ch], 1, 30 if quick else 200, 10 if quick else 60, rep.seed + 7, True)
+                 for ch in _chunks(rnd, NPROC // 2 if quick else NPROC)]
+        self.nprog = len(sel) + len(rnd)
+        self.run = pool.map_async(_conc_run_shard, jobs)
+
+    def collect(self, pool, rep, quick, rng):
+        bouts = self.run.get()
+        rep.extra["conc_programs_run"] = self.nprog
+        rep.extra["conc_schedules"] = sum(o["nsched"] for o in bouts)
+        rep.extra["conc_histories_validated"] = sum(o["nhist"] for o in bouts)
+        yp = rep.extra["conc_yield_points"] = {}
+        for j, o in enumerate(bouts):
+            rep.evaluations += o["nsched"]
+            rep.traces += o["nhist"]
+            rep.nontrivial.update(("conc", j, i) for i in range(o["preempted"]))
+            for kk, vv in o["kinds"].items():
+                yp[kk] = yp.get(kk, 0) + vv
+            for clause, pos, case in o["bad"]:
+                rep.violation(clause, f"concurrent history rejected by LRUConc_Trace: clause {clause}", case)
+            for prog, choices, oc in o["out_bad"]:
+                rep.violation("Linearizable", f"outcome {oc} is not in the set TLC emitted for this program",
+                              {"kind": "conc", "prog": prog, "choices": choices, "lines": False})
+            for d, meta in o["drift"]:
+                rep.drift.append(f"LRUConc_Trace {list(d)} program {meta['prog']} schedule {meta['choices']}")
+            if o["unreached"]:
+                rep.drift.append(f"{o['unreached']} outcomes allowed by LRUConc were not produced by any explored schedule")
+        if bouts and bouts[0]["sample"]:
+            h = bouts[0]["sample"]
+            rep.sample({"concurrent_history": {"m": h["m"], "init": h["init"], "ev": _short(h["ev"], 14)}})
+        if not (yp.get("acq") and yp.get("rel") and yp.get("disp") and yp.get("line")):
+            raise tlc.MachineryError(f"scheduler yield points not all exercised: {yp}")
+        if rep.extra["conc_histories_validated"] == 0 or max(o["maxpre"] for o in bouts) < 2:
+            raise tlc.MachineryError("no preempted concurrent history was produced")
+        return {"conc_emission": sum(o["t"] for o in self.bem), "conc_schedules_and_validation": sum(o["t"] for o in bouts)}
+
+
+class _PartC:
+    """PoolManager: scenarios from TLC + random walks -> PoolCache_Trace; racing managers -> LRUConc_Trace"""
+
+    def submit(self, pool, rep, quick, rng):
+        if quick:
+            sc_cfgs = [pc_cfg(O="O3", NP="NP12", T="T1", N=4, E="TRUE", props=False, emit="ACTION_CONSTRAINT EmitTransitions",
+                              emitting="TRUE", view=True)]
+        else:
+            sc_cfgs = [pc_cfg(O="O3", NP="NP12", T="T1", N=4, E="TRUE", props=False, emit="ACTION_CONSTRAINT EmitPaths",
+                              emitting="TRUE"),
+                       pc_cfg(O="O4", NP="NP12", T="T1", N=5, E="TRUE", props=False, emit="ACTION_CONSTRAINT EmitTransitions",
+                              emitting="TRUE", view=True)]
+        self.emit = pool.map_async(_pc_emit, [(c, 0, 1) for c in sc_cfgs])
+        self.rprogs = race_programs(rng, 38 if quick else 400)
+        jobs = [(ch, 2, 120 if quick else 600, 3 if quick else 20, rep.seed, False) for ch in _chunks(self.rprogs, NPROC)]
+        jobs += [(ch, 1, 50 if quick else 400, 6 if quick else 30, rep.seed + 1, True)
+                 for ch in _chunks(self.rprogs[:16 if quick else 160], NPROC // 2)]
+        self.race = pool.map_async(_race_shard, jobs)
+
+    def submit2(self, pool, rep, quick, rng):
+        self.cem = self.emit.get()
+        scen = []
+        for o in self.cem:
+            for x in o["scen"]:
+                d = json.loads(_unq(x))
+                scen.append((d["np"], d["hist"]))
+        if not scen:
+            raise tlc.MachineryError("PoolCache emitted no scenario")
+        rep.extra["pm_scenarios_emitted"] = len(scen)
+        ops_seen = {x["op"] for _, h in scen for x in h}
+        if not {"req", "goc", "hsend", "fin", "dropr", "droph", "clear", "gc"} <= ops_seen:
+            raise tlc.MachineryError(f"PoolCache scenarios miss an operation kind: {sorted(ops_seen)}")
+        if quick and len(scen) > 3200:
+            scen = rng.sample(scen, 3200)
+        rep.extra["pm_scenarios_replayed"] = len(scen)
+        nrw = 30 if quick else 800
+        jobs = [(ch, rep.seed * 100 + i, nrw, 14 if quick else 24)
+                for i, ch in enumerate(_chunks(scen, NPROC * (1 if quick else 4)))]
+        self.run = pool.map_async(_pm_shard, jobs)
+
+    def collect(self, pool, rep, quick, rng):
+        couts = self.run.get()
+        routs = self.race.get()
+        rep.extra["pm_traces"] = sum(o["n"] for o in couts)
+        rep.extra["pm_trace_events"] = sum(o["events"] for o in couts)
+        for j, o in enumerate(couts):
+            rep.traces += o["n"]
+            rep.evaluations += o["events"]
+            rep.nontrivial.update(("pm", j, i) for i in range(o["nontriv"]))
+            for clause, pos, case in o["bad"]:
+                rep.violation(clause, f"PoolManager trace rejected by PoolCache_Trace at event {pos}: clause {clause}", case)
+            for d, np_, hist in o["drift"]:
+                rep.drift.append(f"PoolCache_Trace {d} num_pools={np_} scenario {hist}")
+            for mm, np_, hist in o["exp_bad"]:
+                rep.drift.append(f"PoolManager observation differs from the model's expectation: {mm} "
+                                 f"(num_pools={np_}, scenario {_strip(hist)})")
+        if couts and couts[0]["sample"]:
+            rep.sample({"pm_trace": {"np": couts[0]["sample"]["np"], "ev": couts[0]["sample"]["ev"][:4]}})
+        if sum(o["nontriv"] for o in couts) == 0:
+            raise tlc.MachineryError("no scenario evicted a pool that was still in use")
+        rep.extra["race_programs"] = len(self.rprogs)
+        rep.extra["race_schedules"] = sum(o["nsched"] for o in routs)
+        rep.extra["race_histories_validated"] = sum(o["nhist"] for o in routs)
+        for j, o in enumerate(routs):
+            rep.evaluations += o["nsched"]
+            rep.traces += o["nhist"]
+            rep.nontrivial.update(("race", j, i) for i in range(o["preempted"]))
+            for clause, pos, case in o["bad"]:
+                rep.violation(clause, f"racing PoolManager history rejected by LRUConc_Trace: clause {clause}", case)
+            for d, meta in o["drift"]:
+                rep.drift.append(f"LRUConc_Trace(manager) {list(d)} program {meta['prog']} schedule {meta['choices']}")
+        if routs and routs[0]["sample"]:
+            h = routs[0]["sample"]
+            rep.sample({"race_history": {"np": h["m"], "init": h["init"], "ev": _short(h["ev"], 12)}})
+        if rep.extra["race_histories_validated"] == 0:
+            raise tlc.MachineryError("no racing manager history was produced")
+        return {"pm_emission": sum(o["t"] for o in self.cem), "pm_scenarios_and_validation": sum(o["t"] for o in couts),
+                "pm_scenarios_python_only": sum(o["t_run"] for o in couts), "pm_races_and_validation": sum(o["t"] for o in routs)}
+
+
+def _stage1_jobs(quick):
+    jobs = [("lru", _stage1_lru, None)]
     conc_cfgs = [("LRUConc T2x2 AlphabetQ small-step", dict(threads="T2", n=2, alpha="MCAlphabetQ", inits="MCInitQ",
                                                             ms="MCMaxSizesQ", hasd="TRUE"), ["Start", "Step", "Rel", "Disp", "Ret"]),
                  ("LRUConc T3x1 get-or-create small-step", dict(threads="T3", n=1, alpha="MCAlphabetPM", inits="MCInitPM",
@@ -1153,10 +1349,10 @@ def run(rep):
                                                                      ms="MCMaxSizesQ", hasd="FALSE"), ["Start", "Step", "Rel", "Ret"])]
     for name, kw, need in conc_cfgs:
         cfg = CONC_MC_CFG.format(spec="Spec", big="FALSE", props="\n".join(CONC_PROPS), emit="", **kw)
-        futs.append(("conc", s1.submit(_stage1_conc, (name, cfg, need))))
+        jobs.append(("conc", _stage1_conc, (name, cfg, need)))
     live_cfg = CONC_MC_CFG.format(spec="FairSpec", big="FALSE", props="PROPERTY Termination", emit="", threads="T2", n=1,
                                   alpha="MCAlphabet", inits="MCInitConts", ms="MCMaxSizes", hasd="TRUE")
-    futs.append(("conc", s1.submit(_stage1_conc, ("LRUConc T2x1 full alphabet, Termination under weak fairness", live_cfg, []))))
+    jobs.append(("conc", _stage1_conc, ("LRUConc T2x1 full alphabet, Termination under weak fairness", live_cfg, [])))
     pc_runs = [("PoolCache T2 MaxOps=3 O2", pc_cfg(T="T2", N=3, O="O2"), None),
                ("PoolCache T1 MaxOps=4 O3 eager gc", pc_cfg(T="T1", N=4, O="O3", E="TRUE"), None),
                ("PoolCache T2 MaxOps=3 O2 liveness", pc_cfg(T="T2", N=3, O="O2", props=False, live=True), None)]
@@ -1167,182 +1363,11 @@ def run(rep):
     for dev, (clause, kw) in PC_TEETH.items():
         pc_runs.append((f"PoolCache deviation {dev[3:]}", pc_cfg(D=dev, **kw), clause))
     for x in pc_runs:
-        futs.append(("pc", s1.submit(_pc_stage1, x)))
+        jobs.append(("pc", _pc_stage1, x))
+    return jobs
 
-    with mp.Pool(NPROC) as pool:
-        # ---------------- A. sequential container
-        a_emit = pool.apply_async(seq_emit_and_replay)
-        L = 3 if quick else 4
-        total = len(SEQ_OPS) ** L
-        jobs = []
-        nsh = 3 if quick else 24
-        for m in (0, 1, 2, 3):
-            for i in range(nsh):
-                jobs.append(("all", m, total * i // nsh, total * (i + 1) // nsh, L, 0))
-        nr, per = (4, 400) if quick else (16, 3000)
-        for i in range(nr):
-            jobs.append(("rand", 0, 0, per, 8 if i % 2 == 0 else 30, seed * 1000 + i))
-        a_tr = pool.map_async(_seq_shard, jobs)
-        # ---------------- B. concurrent container: outcome sets from TLC
-        emit_cfgs = [dict(threads="T2", n=2, alpha="MCAlphabetQ", inits="MCInitQ", ms="MCMaxSizesQ", hasd="TRUE"),
-                     dict(threads="T3", n=1, alpha="MCAlphabet" if not quick else "MCAlphabetSmall", inits="MCInitConts",
-                          ms="MCMaxSizes", hasd="TRUE")]
-        if not quick:
-            emit_cfgs.append(dict(threads="T2", n=2, alpha="MCAlphabetSmall", inits="MCInitConts", ms="MCMaxSizes", hasd="TRUE"))
-        b_emit = pool.map_async(_conc_emit, [CONC_MC_CFG.format(spec="Spec", big="TRUE", props="", emit="ACTION_CONSTRAINT Emit", **kw)
-                                             for kw in emit_cfgs])
-        # ---------------- C. PoolManager scenarios from TLC
-        if quick:
-            sc_cfgs = [pc_cfg(O="O3", NP="NP12", T="T1", N=4, E="TRUE", props=False, emit="ACTION_CONSTRAINT EmitTransitions",
-                              emitting="TRUE", view=True)]
-        else:
-            sc_cfgs = [pc_cfg(O="O3", NP="NP12", T="T1", N=4, E="TRUE", props=False, emit="ACTION_CONSTRAINT EmitPaths",
-                              emitting="TRUE"),
-                       pc_cfg(O="O4", NP="NP12", T="T1", N=5, E="TRUE", props=False, emit="ACTION_CONSTRAINT EmitTransitions",
-                              emitting="TRUE", view=True)]
-        c_emit = pool.map_async(_pc_emit, [(c, 0, 1) for c in sc_cfgs])
-        # ---------------- C4. racing managers (no TLC emission needed: programs are seeded)
-        rprogs = race_programs(rng, 38 if quick else 400)
-        race_jobs = [(ch, 2, 150 if quick else 600, 4 if quick else 20, seed, False) for ch in _chunks(rprogs, NPROC)]
-        race_jobs += [(ch, 1, 60 if quick else 400, 6 if quick else 30, seed + 1, True)
-                      for ch in _chunks(rprogs[:16 if quick else 160], NPROC // 2)]
-        c_race = pool.map_async(_race_shard, race_jobs)
 
-        # ---- collect A
-        ae = a_emit.get()
-        if ae["n"] != ae["generated"] - 4 or ae["n"] == 0:
-            raise tlc.MachineryError(f"LRU emission incomplete: {ae['n']} transitions parsed, TLC generated {ae['generated']}")
-        if set(ae["kinds"]) != {"get", "getd", "set", "del", "clear", "len", "keys"}:
-            raise tlc.MachineryError(f"LRU emission misses an operation kind: {ae['kinds']}")
-        rep.evaluations += ae["n"]
-        rep.nontrivial.update(("tr", i) for i in range(ae["nontriv"]))
-        for sm in ae["samples"][:1]:
-            rep.sample({"lru_transition": sm})
-        for clause, detail, t in ae["bad"]:
-            rep.violation(clause, "replayed LRU transition: " + detail, {"kind": "transition", "transition": t})
-        rep.extra["lru_transitions_emitted"] = ae["generated"] - 4
-        rep.extra["lru_transitions_replayed"] = ae["n"]
-        outs = a_tr.get()
-        rep.extra["seq_traces"] = sum(o["n"] for o in outs)
-        rep.extra["seq_trace_events"] = sum(o["events"] for o in outs)
-        for o in outs:
-            rep.traces += o["n"]
-            rep.evaluations += o["events"]
-            rep.nontrivial.update(("seq", id(o), i) for i in range(o["evicting"]))
-            for clause, pos, case in o["bad"]:
-                rep.violation(clause, f"operation sequence rejected by LRU_Trace at event {pos}: clause {clause}", case)
-            for d in o["drift"]:
-                rep.drift.append(f"LRU_Trace {d}")
-        if outs and outs[0]["sample"]:
-            rep.sample({"seq_trace": {"m": outs[0]["sample"]["m"], "ev": outs[0]["sample"]["ev"][:3]}})
-
-        # ---- collect B emission, then run programs
-        bem = b_emit.get()
-        progs = {}
-        for o in bem:
-            progs.update(o["progs"])
-        if not progs:
-            raise tlc.MachineryError("LRUConc emitted no program")
-        rep.extra["conc_programs_emitted"] = len(progs)
-        rep.extra["conc_outcomes_emitted"] = sum(len(v) for v in progs.values())
-        keys = sorted(progs)
-        nsel = 192 if quick else 2400
-        sel = rng.sample(keys, min(nsel, len(keys)))
-        jobs = [([(k, progs[k]) for k in ch], 2, 160 if quick else 1500, 3 if quick else 10, seed, False)
-                for ch in _chunks(sel, NPROC * (1 if quick else 3))]
-        rnd = random_container_programs(rng, 48 if quick else 480)
-        jobs += [([(k, None) for k in ch], 1, 40 if quick else 200, 12 if quick else 60, seed + 7, True)
-                 for ch in _chunks(rnd, NPROC // 2 if quick else NPROC)]
-        b_run = pool.map_async(_conc_run_shard, jobs)
-
-        # ---- collect C emission, then replay scenarios
-        cem = c_emit.get()
-        scen = []
-        for o in cem:
-            for x in o["scen"]:
-                d = json.loads(_unq(x))
-                scen.append((d["np"], d["hist"]))
-        if not scen:
-            raise tlc.MachineryError("PoolCache emitted no scenario")
-        rep.extra["pm_scenarios_emitted"] = len(scen)
-        ops_seen = {x["op"] for _, h in scen for x in h}
-        if not {"req", "goc", "hsend", "fin", "dropr", "droph", "clear", "gc"} <= ops_seen:
-            raise tlc.MachineryError(f"PoolCache scenarios miss an operation kind: {sorted(ops_seen)}")
-        if quick and len(scen) > 4000:
-            scen = rng.sample(scen, 4000)
-        rep.extra["pm_scenarios_replayed"] = len(scen)
-        nrw = 40 if quick else 800
-        jobs = [(ch, seed * 100 + i, nrw, 14 if quick else 24) for i, ch in enumerate(_chunks(scen, NPROC * (1 if quick else 4)))]
-        c_run = pool.map_async(_pm_shard, jobs)
-
-        bouts = b_run.get()
-        couts = c_run.get()
-        routs = c_race.get()
-
-    # ---- B results
-    rep.extra["conc_programs_run"] = len(sel) + len(rnd)
-    rep.extra["conc_schedules"] = sum(o["nsched"] for o in bouts)
-    rep.extra["conc_histories_validated"] = sum(o["nhist"] for o in bouts)
-    rep.extra["conc_yield_points"] = {}
-    for o in bouts:
-        rep.evaluations += o["nsched"]
-        rep.traces += o["nhist"]
-        rep.nontrivial.update(("conc", id(o), i) for i in range(o["preempted"]))
-        for kk, vv in o["kinds"].items():
-            rep.extra["conc_yield_points"][kk] = rep.extra["conc_yield_points"].get(kk, 0) + vv
-        for clause, pos, case in o["bad"]:
-            rep.violation(clause, f"concurrent history rejected by LRUConc_Trace: clause {clause}", case)
-        for prog, choices, oc in o["out_bad"]:
-            rep.violation("Linearizable", f"outcome {oc} is not in the set TLC emitted for this program",
-                          {"kind": "conc", "prog": prog, "choices": choices, "lines": False})
-        for d, meta in o["drift"]:
-            rep.drift.append(f"LRUConc_Trace {list(d)} program {meta['prog']} schedule {meta['choices']}")
-        if o["unreached"]:
-            rep.drift.append(f"{o['unreached']} outcomes allowed by LRUConc were not produced by any explored schedule")
-    if bouts and bouts[0]["sample"]:
-        h = bouts[0]["sample"]
-        rep.sample({"concurrent_history": {"m": h["m"], "init": h["init"],
-                                           "ev": [{k: v for k, v in e.items() if v not in (NONE, 0, [], False) or k == "t"} for e in h["ev"][:14]]}})
-    yp = rep.extra["conc_yield_points"]
-    if not (yp.get("acq") and yp.get("rel") and yp.get("disp") and yp.get("line")):
-        raise tlc.MachineryError(f"scheduler yield points not all exercised: {yp}")
-    if rep.extra["conc_histories_validated"] == 0 or max(o["maxpre"] for o in bouts) < 2:
-        raise tlc.MachineryError("no preempted concurrent history was produced")
-
-    # ---- C results
-    rep.extra["pm_traces"] = sum(o["n"] for o in couts)
-    rep.extra["pm_trace_events"] = sum(o["events"] for o in couts)
-    for o in couts:
-        rep.traces += o["n"]
-        rep.evaluations += o["events"]
-        rep.nontrivial.update(("pm", id(o), i) for i in range(o["nontriv"]))
-        for clause, pos, case in o["bad"]:
-            rep.violation(clause, f"PoolManager trace rejected by PoolCache_Trace at event {pos}: clause {clause}", case)
-        for d, np_, hist in o["drift"]:
-            rep.drift.append(f"PoolCache_Trace {d} num_pools={np_} scenario {hist}")
-        for mm, np_, hist in o["exp_bad"]:
-            rep.drift.append(f"PoolManager observation differs from the model's expectation: {mm} (num_pools={np_}, scenario {_strip(hist)})")
-    if couts and couts[0]["sample"]:
-        rep.sample({"pm_trace": {"np": couts[0]["sample"]["np"], "ev": couts[0]["sample"]["ev"][:4]}})
-    if sum(o["nontriv"] for o in couts) == 0:
-        raise tlc.MachineryError("no scenario evicted a pool that was still in use")
-    rep.extra["race_programs"] = len(rprogs)
-    rep.extra["race_schedules"] = sum(o["nsched"] for o in routs)
-    rep.extra["race_histories_validated"] = sum(o["nhist"] for o in routs)
-    for o in routs:
-        rep.evaluations += o["nsched"]
-        rep.traces += o["nhist"]
-        rep.nontrivial.update(("race", id(o), i) for i in range(o["preempted"]))
-        for clause, pos, case in o["bad"]:
-            rep.violation(clause, f"racing PoolManager history rejected by LRUConc_Trace: clause {clause}", case)
-        for d, meta in o["drift"]:
-            rep.drift.append(f"LRUConc_Trace(manager) {list(d)} program {meta['prog']} schedule {meta['choices']}")
-    if routs and routs[0]["sample"]:
-        h = routs[0]["sample"]
-        rep.sample({"race_history": {"np": h["m"], "init": h["init"],
-                                     "ev": [{k: v for k, v in e.items() if v not in (NONE, 0, [], False) or k == "t"} for e in h["ev"][:12]]}})
-
-    # ---- stage 1 results
+def _stage1_collect(rep, futs):
     for kind, f in futs:
         o = f.result()
         rep.states += o["distinct"]
@@ -1371,17 +1396,49 @@ def run(rep):
             elif o["violated"] != [expect]:
                 raise tlc.MachineryError(f"{name}: expected TLC to report exactly {expect}, got {o['violated']} "
                                          "(the rule has no teeth)")
+
+
+def run(rep):
+    import os
+    from concurrent.futures import ThreadPoolExecutor
+    quick = rep.tier == "quick"
+    rng = random.Random(rep.seed * 7919 + 17)
+    only = set((os.environ.get("VERIF_C17_PARTS") or "S,A,B,C").upper().split(","))   # development aid
+    rep.rule = ("a case is one execution of real code judged against the specification: a replayed LRU transition, "
+                "a recorded operation sequence, one schedule of a multi-threaded program, one PoolManager scenario. "
+                "Non-trivial = the transition changes the container or disposes a value / the sequence evicts before "
+                "its epilogue / the schedule contains at least one preemption / a pool leaves the manager's cache "
+                "while a response on it is in flight or a handle to it is held")
+    rep.assumptions = ["keys, values and URLs restricted to the stated alphabets; pools use the default maxsize=1, block=False",
+                       "yield points of the scheduler: lock acquire/release, dispose calls, operation starts, and (part of "
+                       "the runs) every source line of RecentlyUsedContainer / PoolManager.connection_from_*; bytecode-level "
+                       "races inside one line are not explored",
+                       "'socket closed' is EOF seen by the in-memory peer after gc.collect(); CPython reference counting",
+                       "TLC 1.8, CPython 3.12 threading / sys.monitoring, vh/net.py and vh/lrusched.py are trusted"]
+    t_start = time.time()
+    global _jvm_gate
+    _jvm_gate = gate = mp.BoundedSemaphore(JVM_SLOTS)
+    s1 = ThreadPoolExecutor(max(1, min(5, J // 3)))
+    futs = [(kind, s1.submit(fn, arg)) for kind, fn, arg in _stage1_jobs(quick)] if "S" in only else []
+    parts = [p for name, p in (("A", _PartA()), ("B", _PartB()), ("C", _PartC())) if name in only]
+    secs = {}
+    with mp.Pool(NPROC, initializer=_init_worker, initargs=(gate,)) as pool:
+        for p in parts:
+            p.submit(pool, rep, quick, rng)
+        for p in parts:
+            if hasattr(p, "submit2"):
+                p.submit2(pool, rep, quick, rng)
+        for p in parts:
+            secs.update(p.collect(pool, rep, quick, rng))
+    _stage1_collect(rep, futs)
     s1.shutdown()
-    rep.exhaustive = True
-    rep.extra["worker_seconds"] = {"lru_traces": round(sum(o["t"] for o in outs), 1),
-                                   "conc_emission": round(sum(o["t"] for o in bem), 1),
-                                   "conc_schedules_and_validation": round(sum(o["t"] for o in bouts), 1),
-                                   "pm_emission": round(sum(o["t"] for o in cem), 1),
-                                   "pm_scenarios_and_validation": round(sum(o["t"] for o in couts), 1),
-                                   "pm_scenarios_python_only": round(sum(o["t_run"] for o in couts), 1),
-                                   "pm_races_and_validation": round(sum(o["t"] for o in routs), 1),
-                                   "stage1_tlc": round(sum(x["wall_s"] for x in rep.stage1), 1),
-                                   "total_wall": round(time.time() - t_start, 1)}
+    _jvm_gate = None
+    rep.exhaustive = only >= {"S", "A", "B", "C"}
+    if not rep.exhaustive:
+        rep.extra["partial_run"] = sorted(only)
+    secs["stage1_tlc"] = sum(x["wall_s"] for x in rep.stage1)
+    secs["total_wall"] = time.time() - t_start
+    rep.extra["worker_seconds"] = {k: round(v, 1) for k, v in secs.items()}
 
 
 # =================================================================================================
